@@ -335,8 +335,10 @@ func (pb prefixDBBatch) GetByteSize() (int, error) {
 	return pb.source.GetByteSize()
 }
 
-// Returns a slice of the same length (big endian)
-// except incremented by one.
+// Returns the smallest key which is greater than every key having bz as prefix:
+// trailing 0xFF bytes are dropped and the last remaining byte is incremented by one.
+// (Keeping the length, e.g. {0x61, 0xFF} -> {0x62, 0x00}, would put the shorter key {0x62},
+// which does not have the prefix, inside the range.)
 // Returns nil on overflow (e.g. if bz bytes are all 0xFF)
 // CONTRACT: len(bz) > 0
 func cpIncr(bz []byte) (ret []byte) {
@@ -347,9 +349,8 @@ func cpIncr(bz []byte) (ret []byte) {
 	for i := len(bz) - 1; i >= 0; i-- {
 		if ret[i] < byte(0xFF) {
 			ret[i]++
-			return
+			return ret[:i+1]
 		}
-		ret[i] = byte(0x00)
 		if i == 0 {
 			// Overflow
 			return nil
